@@ -221,6 +221,9 @@ class PointJacobi(object):
         if other is INFINITY:
             return not y1 or not z1
         if isinstance(other, Point):
+            # a copy of INFINITY (e.g. an unpickled one) is still infinity
+            if other == INFINITY:
+                return not y1 or not z1
             x2, y2, z2 = other.x(), other.y(), 1
         elif isinstance(other, PointJacobi):
             x2, y2, z2 = other.__coords
